@@ -74,7 +74,9 @@ class Gen:
     # ---- attributes
     def foreign_attr(self):
         rng = self.rng
-        directive = rng.choice(["cs::type", "x::y", "foo::bar::baz", "rust::struct", "a::tag"])
+        # the last five end (or begin) with the name of a built-in attribute: they are foreign all the same, and are kept verbatim
+        directive = rng.choice(["cs::type", "x::y", "foo::bar::baz", "rust::struct", "a::tag", "cs::type", "x::y", "foo::bar::baz",
+                                "x::allow", "cs::deprecated", "foo::oneway", "a::b::compress", "my::slicedFormat", "allow::x", "deprecated::tag"])
         n = rng.choice([0, 0, 1, 1, 2, 3])
         args, quoted = [], []
         for _ in range(n):
